@@ -37,7 +37,7 @@ LEVEL_TEXT = (
 
 
 def budget(tier):
-    return 3 if tier == "quick" else 60
+    return 5 if tier == "quick" else 80
 
 
 def wall_guard(tier):
